@@ -40,6 +40,13 @@ chk("C16","XSTATE","model_checking","breadth-first explicit-state search over op
     "All histories of increments (1,2,3), Copy, Add, Update, Remove and the real State.Save/LoadState round trip over 90 start sets (all {1,2,3,5}^n for n<=3, six 4-validator vectors) to depth 3-4 (quick) / 4-6 (thorough) are replayed on fresh real sets; determinism, batched = sequential rounds (as enterNewRound composes them), copy independence, persistence round trip, exact proportionality of every window of T selections, and sortedness/total/hash-from-scratch are each evaluated independently at every state.",
     "Depth per set size as reported in the evidence; int64 overflow and empty sets not covered.")
 
+chk("C03","XSTATE","fault_enumeration","explicit-state crash exploration of the real PrivValidator over a real signer file: transition system extracted breadth-first with canonical states, ledger oracle as product monitor, every counterexample re-executed from scratch",
+    "24 signing requests x 12 fault variants (no fault; process death before each of the three file operations of WriteFileAtomic and after the rename; an injected error at each; each with/without kill+restart) from every reachable signer/file state: the extracted transition system closes after 3 steps, so the ledger monitors (no two different sign-bytes per height/round/step, no regression, durable record before release, restart always loads) are run to their fixpoint over sequences of every length; an un-deduplicated enumeration cross-checks the deduplicated search.",
+    "Crash model = process death between system calls (no torn writes). Heights 1-2, rounds 0-1, blocks A/B. The in-consensus ledger monitor of CONSNET (C07/C01 runs) covers the same invariant inside the state machine.")
+chk("C14","XSTATE","model_checking","exhaustive enumeration of signature lists and of request sequences through the real governance path (signed tx -> contract -> 0xfe precompile -> AdminOp -> EndBlock -> ExecBlock) on lock-step and late replicas against a reference tally and set algebra",
+    "Every signature list of length <=4 (quick) / <=5 (thorough) over 10 entry kinds on four power vectors is offered to the real AdminOp; every request sequence of length <=2-3 over a 38-letter alphabet (add/update/remove/unknown x targets x nonce n-1,n,n+1 x senders x signature shapes x channel contract/direct precompile, literal replays) runs through the real execution path on two lock-step replicas and late replicas; accepted iff distinct current validators with >2/3 power signed exactly that request with the bound sender and nonce; rejected requests change nothing; all replicas end with the same sorted duplicate-free set and hash; a read-only query must not change anything.",
+    "Consensus, p2p and mempool do not run (block validity is C02); part 2 drives core.ApplyTransaction per tx the way executeOriginTx does, part 3 the real EVMApp. Two base sets for sequences.")
+
 NOT_YET = "check not built yet in this round (planned in DESIGN.md §5); not claimed until its quick check passes on the unchanged tree"
 props=[json.loads(l)['id'] for l in open('/verif/properties.jsonl')]
 m={"version":1,
